@@ -1031,7 +1031,7 @@ class CleanupHooks(SendHooks):
 
     def on_branch(self, E, cond, truth):
         src = cond.src()
-        if 'st_atim' in src and 'recent' in src:
+        if 'st_atim' in src:
             def ev(recent):
                 env = {}
                 for y in cond.walk():
@@ -1039,7 +1039,7 @@ class CleanupHooks(SendHooks):
                         p = E.eng.canon(E, y.args[0])
                         if p and 'st_atim' in p:
                             env[p] = 1000000
-                        elif p == 'G:recent':
+                        elif p:
                             env[p] = 1000000 + recent
                 return E.eng.concrete(E, cond, env)
             young = ev(self.oss - 1)
